@@ -7,7 +7,7 @@ from props._design import *  # noqa: F401,F403
 from props import _design as D
 
 ID = "C04"
-PROP_FILES = ["Properties/C04.v", "Properties/C04_matrix.v"]
+PROP_FILES = ["Properties/C04.v", "Properties/C04_matrix.v", "Properties/C04_whole.v"]
 THEOREMS = ["C04_labelled_product", "C04_treatment_indicator", "C04_labels_columns_count"]
 ASSUMPTIONS = ["integer-valued numeric columns (products exact in float64)",
                "levels are str / Categorical / ordered Categorical / small integers via C()"]
@@ -62,7 +62,13 @@ def gen(rng, tier):
             if rng.random() < 0.6:
                 fr["index"] = [j % 4 for j in range(nrows)]
             kind = "with-missing"
-        cases.append({"formula": _formula(rng), "frame": fr, "na": "drop", "kind": kind})
+        case = {"formula": _formula(rng), "frame": fr, "na": "drop", "kind": kind}
+        if rng.random() < 0.2:
+            # the same formula text is used for ANOTHER data set (other level counts) after the design was built
+            # and before it is looked at: what a design's labels say is about its own data
+            case["again"] = gen_dm.make_frame(rng)
+            case["kind"] = kind + "/looked-at-later"
+        cases.append(case)
     fixed = ["y ~ f:g", "y ~ g:f", "y ~ 0 + f:g:h", "y ~ x:f", "y ~ f:x", "y ~ 0 + h:x:f", "y ~ f/g", "y ~ 0 + (f + g)*h",
              "y ~ (0 + f | g + h) + (1 | g)", "y ~ (x | g:h)", "y ~ C(k):o", "y ~ o + c", "f ~ x", "y ~ (f | C(k))"]
     for f in fixed:
@@ -86,8 +92,13 @@ def _oracle(c):
         d = dm.build(c)
     except Exception:
         return None  # rejected formulas are not this property's business
+    if c.get("again"):
+        try:
+            dm.build(dict(c, frame=c["again"]))
+        except Exception:  # noqa
+            pass
     df = dm.to_pandas(c["frame"])
-    if c.get("kind") == "with-missing":
+    if c.get("kind", "").startswith("with-missing"):
         # the observations a design is about: complete in the variables the formula uses (read off the text)
         names = set(re.findall(r"[A-Za-z_][A-Za-z_0-9]*", c["formula"]))
         used = [v for v in df.columns if v in names]
